@@ -43,6 +43,8 @@ def hom(v):
 def line3_points(L):
     """two independent points spanning a 3D line given by its array (contravariant dual Pluecker matrix): null space of M^T"""
     M = np.asarray(L, dtype=complex)
+    if not np.all(np.isfinite(M)):
+        return np.full((2, M.shape[-1]), np.nan, dtype=complex)
     u, s, vh = np.linalg.svd(M.T)
     return vh[-2:].conj()
 
